@@ -22,6 +22,9 @@ struct Cell {
 	friend bool operator==(Cell const& a, Cell const& b) { return a.v == b.v; }
 	friend bool operator!=(Cell const& a, Cell const& b) { return a.v != b.v; }
 	friend bool operator<(Cell const& a, Cell const& b) { return a.v < b.v; }
+	friend bool operator>(Cell const& a, Cell const& b) { return a.v > b.v; }
+	friend bool operator<=(Cell const& a, Cell const& b) { return a.v <= b.v; }
+	friend bool operator>=(Cell const& a, Cell const& b) { return a.v >= b.v; }
 };
 #define VR_ELEMENT
 using VT = Cell;
@@ -621,6 +624,12 @@ static void gen_c05(Rng& rng) {
 	}
 }
 
+#ifdef TRACKED
+static bool long_coin(Rng& rng, int pct) { (void)rng.coin(pct); return false; }   // tracked elements: int-like only
+#else
+static bool long_coin(Rng& rng, int pct) { return rng.coin(pct); }
+#endif
+
 static bool order_ok(char fa, bool la, char fb, bool lb) { return la == lb && ((fa == 'c') == (fb == 'c')); }
 
 static char any_form(Rng& rng, Reg const& R) {
@@ -666,14 +675,14 @@ static void gen_c07(Rng& rng) {
 		else if(rng.coin(20) && D >= 2) { std::swap(z2[0], z2[1]); }
 		long n1 = 1, n2 = 1; for(long x : z) n1 *= x; for(long x : z2) n2 *= x;
 		emit_root(0, alloc_root(false, n1, rng), z);
-		emit_root(10, alloc_root(rng.coin(25), n2, rng), z2);
+		emit_root(10, alloc_root(long_coin(rng, 25), n2, rng), z2);
 		exec_line("q shape 0"); exec_line("q shape 10");
 		if(z == z2 && rng.coin(70)) { exec_line("x assign r0 r10"); if(rng.coin(50)) perturb(rng.coin(50) ? 0 : 10, rng); }
 		for(int t = 0; t < 2; ++t) { gen_compare(0, 10, rng, true); gen_compare(10, 0, rng, true); }
 		gen_compare(0, 0, rng, false);
 		return;
 	}
-	bool l1 = rng.coin(15), l2 = rng.coin(20), l3 = rng.coin(15);
+	bool l1 = long_coin(rng, 15), l2 = long_coin(rng, 20), l3 = long_coin(rng, 15);
 	build_embedded(z, l1, 0, 1, rng, rng.coin(20));
 	std::vector<long> zb = z, zc = z;
 	if(kind == 2) {
